@@ -170,7 +170,7 @@ func flushChild(args []string) int {
 	in := fs.String("args", "", "json")
 	_ = fs.Parse(args)
 	var a flushChildArgs
-	must(json.Unmarshal([]byte(*in), &a))
+	childArgs(*in, &a)
 	m := memstore.NewMemStore()
 	for _, kv := range a.KVs {
 		if kv.Nil {
